@@ -67,6 +67,21 @@ MODS = ["J2O.Props.C04", "J2O.Lemmas.C04"]
 LATTICE = (1, 2, 3, 5, 7)
 
 
+def prove_robust(chk: Check, mods, checker: bool) -> bool:
+    """chk.prove, but an audit that comes back without the stated theorems (seen once under heavy load
+    while other builds were running; the build itself had succeeded) is retried once and is then
+    infrastructure trouble (exit 2), never a verdict about /repo."""
+    def audit_trouble():
+        return any(("not found by the audit" in b) or b == "audit" for b in getattr(chk, "broken", []))
+    ok = chk.prove(mods, checker=checker)
+    if not ok and audit_trouble():
+        chk.log("Lean audit incomplete; retrying once")
+        ok = chk.prove(mods, checker=checker)
+        if not ok and audit_trouble():
+            raise RuntimeError(f"Lean audit did not report the stated theorems (twice): {chk.broken}")
+    return ok
+
+
 # ----------------------------------------------------------------------------- serialisation
 
 
@@ -892,7 +907,7 @@ def run(chk: Check) -> None:
     import jax
     rng = common.Rng(chk.seed)
     thorough = chk.tier == "thorough"
-    proved = chk.prove(MODS, checker=thorough)
+    proved = prove_robust(chk, MODS, thorough)
 
     progs = corpus_programs(rng) + template_programs() + random_programs(rng, 40 if not thorough else 400)
     stats = {"programs": 0, "not_exportable": 0, "sessions": 0, "calls": 0, "exprs": 0, "tree_equal": 0,
@@ -1228,8 +1243,28 @@ def replay(path: str) -> int:
     if prog is None or "binding" not in rep:
         print("replay: nothing executable recorded (see the JSON above)")
         return 1
-    model, _ = export(prog)
+    model, ins = export(prog)
     sess = ort_session(model)
+    if rep.get("unsound_origins"):
+        # an origin recording that was false at run time: probe the same tensors again
+        probes, recorded, names = origin_probe(model, ins, ins.order[0])
+        xs = prog.make_inputs(rep["binding"])
+        feeds = feeds_for(sess, prog, xs)
+        still = []
+        for nm, ps in (probes or []):
+            try:
+                shp = ps.run(None, {i.name: feeds[i.name] for i in ps.get_inputs()})[0]
+            except Exception:
+                continue
+            for (v, axis, key, producer) in recorded:
+                if v == nm and key in ins.expr_of_key:
+                    want = int(ins.expr_of_key[key]._evaluate(dict(rep["binding"])))
+                    if axis < len(shp) and int(shp[axis]) != want:
+                        still.append((v, axis, key, want, int(shp[axis])))
+        print("origins recorded for a dimension the tensor does not have at run time "
+              "(value, axis, dim, dim value, run-time extent):", still)
+        print("reproduced" if still else "not reproduced (all recorded origins are true now)")
+        return 1 if still else 0
     xs, outs = run_ort_prog(sess, prog, rep["binding"])
     exp = as_list(prog.fn(*xs))
     print("specs:", prog.specs, "binding:", rep["binding"])
